@@ -29,6 +29,9 @@ type Obs struct {
 	Stderr     string      `json:"stderr,omitempty"`
 	HarnessErr string      `json:"harnessErr,omitempty"`
 	Init       any         `json:"init,omitempty"`
+	Inits      []string    `json:"inits,omitempty"`   // handshake histories: the attempts answered with bad content
+	Sub        int         `json:"sub,omitempty"`     // decode: documents tried (after a crash: the index of the one being sent)
+	Decoded    []string    `json:"decoded,omitempty"` // decode: per document, "returned" (a value or an error) / "pending"
 	Call       any         `json:"call,omitempty"`
 	Calls      []any       `json:"calls,omitempty"`
 	Notes      []int       `json:"notes"`
@@ -137,6 +140,8 @@ func callObs(cursor string, err error) any {
 		return "noEndpoint"
 	case strings.Contains(s, "context deadline exceeded"), strings.Contains(s, "context canceled"):
 		return f("deadline")
+	case strings.Contains(s, "invalid header field value"):
+		return f("header") // net/http refused to send the request: a header the client set is not a valid field value
 	case strings.Contains(s, "status code"):
 		return f("status")
 	case strings.Contains(s, "failed to parse response"), strings.Contains(s, "invalid character"), strings.Contains(s, "cannot unmarshal"),
@@ -176,7 +181,68 @@ func quietWindow(lg *countLogger, d time.Duration) (logs int64, cpuMs, wallMs fl
 	return
 }
 
+// initClass: how an Initialize attempt that the server answered with bad content ended
+func initClass(err error) string {
+	switch {
+	case err == nil:
+		return "ok"
+	case strings.Contains(err.Error(), "context deadline exceeded"), strings.Contains(err.Error(), "context canceled"):
+		return "pending"
+	}
+	return "error"
+}
+
+// badAttempts runs the Initialize attempts of a handshake history that the server answers with bad content
+func badAttempts(cs *Case, obs *Obs, c mcp.Connector) {
+	for range cs.BadInits {
+		ctx, cancel := context.WithTimeout(context.Background(), 2*time.Second)
+		_, err := c.Initialize(ctx, &mcp.InitializeRequest{})
+		cancel()
+		obs.Inits = append(obs.Inits, initClass(err))
+	}
+}
+
+// typedCall makes one call of the case's method and says whether it came back (a value or an error) or only its deadline did
+func typedCall(c mcp.Connector, method string, i int) (class string) {
+	ctx, cancel := context.WithTimeout(context.Background(), 5*time.Second)
+	defer cancel()
+	defer func() {
+		if r := recover(); r != nil {
+			class = "panic: " + fmt.Sprint(r) // the library panicked on the caller's goroutine
+		}
+	}()
+	var err error
+	name := fmt.Sprint("d", i)
+	switch method {
+	case "tools/call":
+		req := &mcp.CallToolRequest{}
+		req.Params.Name = name
+		_, err = c.CallTool(ctx, req)
+	case "prompts/get":
+		req := &mcp.GetPromptRequest{}
+		req.Params.Name = name
+		_, err = c.GetPrompt(ctx, req)
+	case "resources/read":
+		req := &mcp.ReadResourceRequest{}
+		req.Params.URI = "file:///" + name
+		_, err = c.ReadResource(ctx, req)
+	case "tools/list":
+		_, err = c.ListTools(ctx, listReq(name))
+	case "prompts/list":
+		_, err = c.ListPrompts(ctx, &mcp.ListPromptsRequest{})
+	case "resources/list":
+		_, err = c.ListResources(ctx, &mcp.ListResourcesRequest{})
+	default:
+		return "harness: unknown method " + method
+	}
+	if err != nil && (strings.Contains(err.Error(), "context deadline exceeded") || strings.Contains(err.Error(), "context canceled")) {
+		return "pending"
+	}
+	return "returned"
+}
+
 type worker struct {
+	progress func(n, sub int) // decode: document `sub` of case n is about to be sent
 	srv      *servers
 	dir      string
 	baseCPU  float64
@@ -205,8 +271,13 @@ type callRes struct {
 	ms  float64
 }
 
-func doList(ctx context.Context, c mcp.Connector, cursor string) callRes {
+func doList(ctx context.Context, c mcp.Connector, cursor string) (cr callRes) {
 	t0 := time.Now()
+	defer func() {
+		if r := recover(); r != nil { // the library panicked on the caller's goroutine
+			cr = callRes{map[string]any{"failed": "panic: " + fmt.Sprint(r)}, float64(time.Since(t0)) / 1e6}
+		}
+	}()
 	res, err := c.ListTools(ctx, listReq(cursor))
 	return callRes{callObs(cursorOf(res), err), float64(time.Since(t0)) / 1e6}
 }
@@ -261,15 +332,31 @@ func (w *worker) runStreamable(cs *Case, obs *Obs) {
 	for _, m := range cs.Handlers {
 		cl.RegisterNotificationHandler(m, rec.note)
 	}
+	badAttempts(cs, obs, cl)
 	ctx, cancel := context.WithTimeout(context.Background(), 5*time.Second)
 	_, err = cl.Initialize(ctx, &mcp.InitializeRequest{})
 	cancel()
 	if err != nil {
+		if len(cs.BadInits) > 0 {
+			// the retry after a handshake that failed on bad content: an observation, not a harness problem
+			obs.Init = callObs("init", err)
+			obs.PendingReturned = true
+			closeWithCeiling(obs, lg, cl.Close, 5*time.Second, 0, 5*time.Second)
+			return
+		}
 		obs.HarnessErr = "Initialize: " + err.Error()
 		cl.Close()
 		return
 	}
+	obs.Init = callObs("init", nil)
 	switch cs.C {
+	case "readers.decode":
+		for i := range cs.Docs {
+			w.progress(cs.N, i)
+			obs.Decoded = append(obs.Decoded, typedCall(cl, cs.Method, i))
+			obs.Sub = i + 1
+		}
+		obs.PendingReturned = true
 	case "readers.json", "readers.post":
 		d := 5 * time.Second
 		if cs.End == "stall" {
@@ -326,6 +413,7 @@ func (w *worker) runLegacy(cs *Case, obs *Obs) {
 	if cs.NoEndpoint {
 		d = 400 * time.Millisecond // no endpoint event will come: the caller's deadline ends the handshake
 	}
+	badAttempts(cs, obs, cl)
 	ctx, cancel := context.WithTimeout(context.Background(), d)
 	_, err = cl.Initialize(ctx, &mcp.InitializeRequest{})
 	cancel()
@@ -439,7 +527,14 @@ func selfExe() string {
 func (w *worker) newStdio(cs *Case, lg *countLogger) (*mcp.StdioClient, string, error) {
 	scriptPath := filepath.Join(w.dir, fmt.Sprintf("peer-%d-%d.json", os.Getpid(), cs.N))
 	logPath := scriptPath + ".log"
-	b, _ := json.Marshal(peerScript{Calls: len(cs.IDs), Frames: cs.Frames, Exit: cs.Exit, Log: logPath})
+	ps := peerScript{Calls: len(cs.IDs), Frames: cs.Frames, Exit: cs.Exit, Log: logPath, Method: cs.Method}
+	for _, l := range cs.BadInits {
+		ps.BadInits = append(ps.BadInits, docText(l))
+	}
+	for _, l := range cs.Docs {
+		ps.Docs = append(ps.Docs, docText(l))
+	}
+	b, _ := json.Marshal(ps)
 	if err := os.WriteFile(scriptPath, b, 0o644); err != nil {
 		return nil, "", err
 	}
@@ -486,13 +581,28 @@ func (w *worker) runStdio(cs *Case, obs *Obs) {
 		sc.RegisterNotificationHandler(m, rec.note)
 	}
 	sc.RegisterNotificationHandler("verif/arrived", rec.onArrived)
+	badAttempts(cs, obs, sc)
 	ctx, cancel := context.WithTimeout(context.Background(), 5*time.Second)
 	_, err = sc.Initialize(ctx, &mcp.InitializeRequest{})
 	cancel()
 	if err != nil {
+		if len(cs.BadInits) > 0 {
+			obs.Init = callObs("init", err)
+			obs.PendingReturned = true
+			w.finish = closeWithCeiling(obs, lg, sc.Close, 9*time.Second, 0, 300*time.Millisecond)
+			return
+		}
 		obs.HarnessErr = "Initialize: " + err.Error()
 		go sc.Close()
 		return
+	}
+	obs.Init = callObs("init", nil)
+	if cs.C == "readers.decode" {
+		for i := range cs.Docs {
+			w.progress(cs.N, i)
+			obs.Decoded = append(obs.Decoded, typedCall(sc, cs.Method, i))
+			obs.Sub = i + 1
+		}
 	}
 	n := len(cs.IDs)
 	results := make([]chan callRes, n)
@@ -556,10 +666,10 @@ func (w *worker) runCase(cs *Case) (obs *Obs) {
 			*obs = Obs{N: cs.N, HarnessErr: fmt.Sprint("harness panic: ", r), Notes: []int{}, Answers: []answerObs{}}
 		}
 	}()
-	switch cs.C {
-	case "readers.legacy":
+	switch {
+	case cs.C == "readers.legacy":
 		w.runLegacy(cs, obs)
-	case "readers.stdio":
+	case cs.C == "readers.stdio", cs.C == "readers.decode" && cs.Via == "stdio":
 		w.runStdio(cs, obs)
 	default:
 		w.runStreamable(cs, obs)
@@ -588,6 +698,11 @@ func workerMain() {
 	w := &worker{srv: startServers(), dir: filepath.Dir(os.Getenv(outEnv))}
 	var mu sync.Mutex
 	var wg sync.WaitGroup
+	w.progress = func(n, sub int) {
+		mu.Lock()
+		fmt.Fprintf(out, "{\"sub\":[%d,%d]}\n", n, sub)
+		mu.Unlock()
+	}
 	emit := func(obs *Obs) {
 		j, _ := json.Marshal(map[string]any{"obs": obs})
 		mu.Lock()
